@@ -67,6 +67,12 @@ double raw_fit(const i_mep &x, const fitcfg &c)
   return -static_cast<double>(1 + ((h.data[0] >> 11) ^ (h.data[1] >> 7)) % (1 + 997 / c.k));
 }
 
+double raw_fit(const team<i_mep> &x, const fitcfg &c)
+{
+  const auto h(x.signature());
+  return -static_cast<double>(1 + ((h.data[0] >> 13) ^ (h.data[1] >> 5)) % (1 + 997 / c.k));
+}
+
 template<class T>
 class h_eval : public evaluator<T>
 {
@@ -131,6 +137,10 @@ template<> struct prob_for<i_mep>
     for (const char *s : {"REAL", "FADD", "FSUB", "FMUL", "FIFL", "FIFE"})
       prob.sset.insert(factory.make(s));
   }
+};
+
+template<> struct prob_for<team<i_mep>> : prob_for<i_mep>
+{
 };
 
 template<> struct prob_for<i_ga>
@@ -563,6 +573,8 @@ void case_run(const std::vector<std::string> &t)
   const std::string ind(extra["T"]);
   if (c.strat == "std" && ind == "mep") whole_run<i_mep, mon_std>(c);
   else if (c.strat == "std" && ind == "ga") whole_run<i_ga, mon_std>(c);
+  else if (c.strat == "std" && ind == "team") whole_run<team<i_mep>, mon_std>(c);
+  else if (c.strat == "alps" && ind == "team") whole_run<team<i_mep>, mon_alps>(c);
   else if (c.strat == "alps" && ind == "mep") whole_run<i_mep, mon_alps>(c);
   else if (c.strat == "alps" && ind == "ga") whole_run<i_ga, mon_alps>(c);
   else if (c.strat == "de" && ind == "de") whole_run<i_de, mon_de>(c);
@@ -693,6 +705,7 @@ void case_components(const std::vector<std::string> &t)
   const unsigned count(std::stoul(extra["count"]));
   if (ind == "mep") components<i_mep>(c, what, count);
   else if (ind == "ga") components<i_ga>(c, what, count);
+  else if (ind == "team") components<team<i_mep>>(c, what, count);
   else if (ind == "de") components<i_de>(c, what, count);
   else emit("bad:unknown-individual", "-", "noop");
 }
